@@ -14,6 +14,7 @@ import DeapModel.Lemmas.C09Basic
 import DeapModel.Lemmas.C09PMX
 import DeapModel.Lemmas.C09OX
 import DeapModel.Lemmas.C09BufferOps
+import DeapModel.Lemmas.C09Hist
 
 set_option linter.unusedSectionVars false
 set_option linter.unusedSimpArgs false
@@ -1217,5 +1218,85 @@ example : run1 (CrossMutBuf.mutFlipBit .view 0 [true, true, false]) [1, 0, (1 : 
 example : mutUniformInt [7, 7, 7] (.scalar 0) (.seq [1, 3, 5, 9]) [some 1, none, some 4] = some [1, 7, 4] := by decide
 
 end Repr
+
+/-! ## Histories: the operators are functions of (their arguments NOW, the draws) only
+
+`OpHistory` (`Core/CrossMutBuf.lean`) is a process in which operators are called one after the other on
+objects the caller keeps, reuses and edits in place (`storeP/G/S`), some calls raising midway and leaving
+the heap as the exception left it, some being refused before they touch anything.  Its state is nothing but
+the heaps of the caller's objects.  `C09H.Valid st e` are the hypotheses of the statement for the call `e`,
+read on the contents the objects have in `st`; `C09H.Post st ret st' e` says that the arguments hold what
+the list model (for which all the theorems above are proved) computes from the contents they had in `st`,
+that the objects returned are the arguments, and that every other object of the caller is untouched. -/
+section Histories
+open Buffer OpHistory C09H
+
+/-- Whatever happened before in the process — any number of calls of any operators, completed or aborted by
+an exception (the heap is then in the partial state the copy/view model predicts), refused calls, the caller
+overwriting individuals or bound lists in place — a call whose arguments meet the hypotheses NOW completes,
+returns its arguments, and leaves in them exactly what the list model computes from their current contents
+(for `mutUniformInt`: from the contents the bound objects have now).  Nothing a module could remember from
+earlier calls (bounds memoised by object identity, hole markers left dirty by an aborted call) is an input. -/
+theorem op_result_history_independent (hist : List Event) (s0 : State) (e : Event) (hv : Valid (run hist s0) e) :
+    ∃ ret st', step (run hist s0) e = (.ok ret, st') ∧ Post (run hist s0) ret st' e :=
+  call_determined (run hist s0) e hv
+
+-- hypotheses satisfiable: an aborted `cxOrdered` (a tour numbered 1..5: IndexError midway) followed by a valid one
+example : Valid (run [.newP [3, 1, 2, 0, 4], .newP [2, 3, 5, 4, 1], .newP [1, 2, 4, 3, 0], .ox .copy 0 1 1 3] init)
+    (.ox .copy 0 2 2 4) := by
+  show (0 : Nat) ≠ 2 ∧ cxOrderedOk _ _ 2 4
+  decide
+example : (step (run [.newP [3, 1, 2, 0, 4], .newP [2, 3, 5, 4, 1], .newP [1, 2, 4, 3, 0]] init) (.ox .copy 0 1 1 3)).1
+    = .raise .index := by decide
+
+/-- two processes with different pasts: if the two parents hold the same permutations now, `cxOrdered` leaves
+the same children (which `ox_perm` shows to be permutations) -/
+theorem ox_result_depends_on_current_contents_only (hist1 hist2 : List Event) (s1 s2 : State) (d1 d2 : Disc)
+    (i1 i2 j1 j2 a b : Nat) (hi : i1 ≠ i2) (hj : j1 ≠ j2)
+    (e1 : (run hist1 s1).perm.cell i1 = (run hist2 s2).perm.cell j1)
+    (e2 : (run hist1 s1).perm.cell i2 = (run hist2 s2).perm.cell j2)
+    (hok : cxOrderedOk ((run hist1 s1).perm.cell i1) ((run hist1 s1).perm.cell i2) a b) :
+    ∃ t1 t2, step (run hist1 s1) (.ox d1 i1 i2 a b) = (.ok [i1, i2], t1) ∧
+      step (run hist2 s2) (.ox d2 j1 j2 a b) = (.ok [j1, j2], t2) ∧
+      t1.perm.cell i1 = t2.perm.cell j1 ∧ t1.perm.cell i2 = t2.perm.cell j2 := by
+  have hok2 : cxOrderedOk ((run hist2 s2).perm.cell j1) ((run hist2 s2).perm.cell j2) a b := by rw [← e1, ← e2]; exact hok
+  obtain ⟨r1, t1, q1, p1⟩ := call_determined (run hist1 s1) (.ox d1 i1 i2 a b) ⟨hi, hok⟩
+  obtain ⟨r2, t2, q2, p2⟩ := call_determined (run hist2 s2) (.ox d2 j1 j2 a b) ⟨hj, hok2⟩
+  obtain ⟨rfl, c1, _⟩ := p1
+  obtain ⟨rfl, c2, _⟩ := p2
+  refine ⟨t1, t2, q1, q2, ?_, ?_⟩
+  · have := congrArg Prod.fst c1; have h2 := congrArg Prod.fst c2; simp only at this h2; rw [this, h2, e1, e2]
+  · have := congrArg Prod.snd c1; have h2 := congrArg Prod.snd c2; simp only at this h2; rw [this, h2, e1, e2]
+
+example : (0 : Nat) ≠ 1 ∧ cxOrderedOk ((run [.newP [0, 1, 2, 3, 4], .newP [4, 3, 2, 1, 0]] init).perm.cell 0)
+    ((run [.newP [0, 1, 2, 3, 4], .newP [4, 3, 2, 1, 0]] init).perm.cell 1) 3 1 := by decide
+
+/-- the bounds of `mutUniformInt` are read when the call is made: after the caller has overwritten the bound
+objects `lo`, `hi` (in place, same objects as in every earlier call), the mutant is what the list model
+computes from the NEW bounds — so its changed genes lie inside them (`uniform_int_bounds`) -/
+theorem uniform_int_reads_bounds_at_call_time (hist : List Event) (s0 : State) (d : Disc) (i lo hi : Nat)
+    (vlo vhi : List Int) (ds : List (Option Int)) (hne : lo ≠ hi) (hil : i ≠ lo) (hih : i ≠ hi) (out : List Int)
+    (hm : mutUniformInt ((run hist s0).gene.cell i) (.seq vlo) (.seq vhi) ds = some out) :
+    ∃ st', step (run (hist ++ [.storeG lo vlo, .storeG hi vhi]) s0) (.uniformint d i (.obj lo) (.obj hi) ds)
+        = (.ok [i], st') ∧ st'.gene.cell i = out := by
+  have hl : (run (hist ++ [.storeG lo vlo, .storeG hi vhi]) s0).gene.cell lo = vlo := by
+    rw [run_append]; simp [run, step, Buffer.Heap.write, hne]
+  have hh : (run (hist ++ [.storeG lo vlo, .storeG hi vhi]) s0).gene.cell hi = vhi := by
+    rw [run_append]; simp [run, step, Buffer.Heap.write]
+  have hc : (run (hist ++ [.storeG lo vlo, .storeG hi vhi]) s0).gene.cell i = (run hist s0).gene.cell i := by
+    rw [run_append]; simp [run, step, Buffer.Heap.write, hil, hih]
+  have hv : Valid (run (hist ++ [.storeG lo vlo, .storeG hi vhi]) s0) (.uniformint d i (.obj lo) (.obj hi) ds) :=
+    ⟨out, by simp only [BRef.now]; rw [hl, hh, hc]; exact hm⟩
+  obtain ⟨ret, st', q, p⟩ := call_determined _ _ hv
+  obtain ⟨rfl, c, _⟩ := p
+  refine ⟨st', q, ?_⟩
+  simp only [BRef.now] at c; rw [hl, hh, hc, hm] at c
+  exact (Option.some.inj c).symm
+
+example : mutUniformInt ((run [.newG [6, 3, 6, 5], .newG [0, 0, 0, 0], .newG [9, 9, 9, 9],
+      .uniformint .copy 0 (.obj 1) (.obj 2) [some 1, none, some 7, none]] init).gene.cell 0)
+    (.seq [66, -52, 25, 61]) (.seq [69, -52, 28, 61]) [some 67, some (-52), none, some 61] = some [67, -52, 7, 61] := by decide
+
+end Histories
 
 end C09
